@@ -62,6 +62,8 @@ def reserved_words(framework):
     r |= {"field", "attr", "optional", "dataclass"}
     if framework in ("pydantic", "sqlmodel"):
         r |= {"construct", "copy", "dict", "json", "validate", "fields"}
+    if framework == "attrs":
+        r |= {"self"}       # attrs writes __init__(self, <fields>): the field cannot keep that name (fix 5570ffe)
     return r
 
 
